@@ -182,6 +182,8 @@ class AbstractModel(ModelObject):
                     if issubclass(instance.cls, name)
                 ]
                 instance = ModelInstance(instances)
+            elif isinstance(instance, dict):
+                instance = instance[name]
             else:
                 instance = getattr(instance, name)
         return instance
